@@ -526,6 +526,7 @@ class StdioLayer:
         st['runs'] += 1; st['passes'] += len(sim['ops'])
         st['runs that ended with the daemon leaving its loop'] += 1 if sim['done'] else 0
         st['runs without injected faults'] += 1 if sim['clean'] else 0
+        st['runs ended by SIGTERM while the client was served (both descriptors closed in the teardown)'] += 1 if (sim['ops'] and sim['ops'][-1].startswith('Q') and sim['done']) else 0
         st['final flushes larger than what the descriptor could take at once (write would sleep)'] += sum(1 for co in sim['couts'] for l in co if l.startswith('Y write %d ' % daemon.STDIO_OUT) and l.endswith('BLOCKS'))
         st['bytes delivered to the client: ' + ('< 1 KiB' if len(out) < 1024 else '< 16 KiB' if len(out) < 16384 else '>= 16 KiB')] += 1
         if any(l.startswith('Y write %d ' % daemon.STDIO_IN) for co in sim['couts'] for l in co):
@@ -548,7 +549,7 @@ class StdioLayer:
         st = collections.Counter(); diffs = []; V = []
         for r in res: st.update(r['st']); diffs += r['diffs']; V += r['V']
         return dict(name=self.name, evaluations=st['passes'], distinct=st['passes'], samples=[r['sample'] for r in res[:3]], stats=dict(st), diffs=diffs, violations=V,
-                    rule='one evaluation = one pass of the real powermand.c in --stdio mode (client.c: _create_client_stdio, cli_pre_poll / cli_post_poll with ofd, _handle_write, _destroy_client, cli_server_done) compared line by line with Pm.Daemon.Stdio.daemonPassIO; half of the runs inject descriptor faults')
+                    rule='one evaluation = one pass of the real powermand.c in --stdio mode (client.c: _create_client_stdio, cli_pre_poll / cli_post_poll with ofd, _handle_write, _destroy_client, cli_server_done) compared line by line with Pm.Daemon.Stdio.daemonPassIO; half of the runs inject descriptor faults, one in five ends with SIGTERM while the client is served (signalPassIO)')
 
     def replay(self, rp, v):
         sim = daemon.simulate_stdio(rp['seed'], rp['N'], rp['faults'])
